@@ -15,6 +15,7 @@ import SophiaProofs.Lemmas.HeapWorld
 import SophiaProofs.Lemmas.HeapX
 import SophiaProofs.Lemmas.HeapSized
 import SophiaProofs.Lemmas.HeapRefine
+import SophiaProofs.Lemmas.HeapReach
 import SophiaProofs.Lemmas.StoreQuery
 import SophiaModel.Gen.CloneKind
 import SophiaModel.Gen.MownStrShape
@@ -748,6 +749,39 @@ theorem unwrap_unchecked_safe_gen {d : StoreDesc} {s : St}
   obtain ⟨_, hF⟩ := armFacts_of_armOK (harms arm ha) hn hperm
   have hF' : ArmFacts s.shape.n (s.shape.perms.getD arm.index []) arm := by rw [hs]; exact hF
   exact (unwrap_unchecked_safe h hF' hix hr).2
+
+/-- `reachable_store_inv`: the hypothesis `Inv s` (C01's representation invariant) of `unwrap_unchecked_safe`
+is DISCHARGED for the worlds C10 is about: after any history whose stores are created with well-formed shapes
+(`newOK`; the four generated shapes are, see the `example` below) every graph / dataset of the world, read
+through the heap, satisfies C01's `Inv` — by `value_semantics` the world is a world of `Store` values, and
+`Store.insert` / `remove` / `ensure_index` / copying / renaming preserve `Inv` (C01's lemmas + `inv_ens`). -/
+theorem reachable_store_inv (ops : List Op) (hop : ∀ op ∈ ops, newOK op) :
+    ∀ e ∈ (World.run .manual {} ops).stores, e.2.shape.n ≠ 0 →
+      Inv (e.2.view (World.run .manual {} ops).heap) ∧ lookupOrderOK (e.2.view (World.run .manual {} ops).heap) := by
+  intro e he hn
+  have hv : VInv (World.run .manual {} ops).vview := by
+    rw [value_semantics]; exact VInv.run (fun _ h => by cases h) ops hop
+  exact hv (e.1, e.2.view _) (List.mem_map.2 ⟨e, he, rfl⟩) hn
+
+example : newOK (.new 0 Gen.genericFastDataset.shape Gen.maxU16) ∧ newOK (.new 1 Gen.genericLightGraph.shape Gen.maxU32) ∧
+    newOK (.new 2 Gen.genericLightDataset.shape 6) ∧ newOK (.new 3 Gen.genericFastGraph.shape 6) ∧
+    newOK (.new 4 ⟨0, [], []⟩ 6) := by
+  refine ⟨Or.inr (by decide), Or.inr (by decide), Or.inr (by decide), Or.inr (by decide), Or.inl rfl⟩
+
+/-- `unwrap_unchecked_safe_reachable`: … so for every shipped store type, in every world reachable under the
+manual `Clone`, in whatever order stores were cloned, dropped, moved or refused insertions, the values handed
+to `unwrap_unchecked` in inmem/src/dataset/_iter.rs are `Some` — no invariant assumed any more. -/
+theorem unwrap_unchecked_safe_reachable (ops : List Op) (hop : ∀ op ∈ ops, newOK op)
+    {e : Nat × HStore} (he : e ∈ (World.run .manual {} ops).stores) {d : StoreDesc}
+    (hd : d = Gen.genericLightDataset ∨ d = Gen.genericFastDataset ∨ d = Gen.genericLightGraph ∨
+      d = Gen.genericFastGraph) (hs : e.2.shape = d.shape) {arm : Arm} (ha : arm ∈ d.arms)
+    {ix : List Row} (hix : e.2.idx[arm.index]? = some ix) {r : Row} (hr : r ∈ ix) :
+    ∀ pos, pos < e.2.shape.n → isGPos e.2.shape.n pos = false →
+      ∃ t, (namesOfRow (e.2.view (World.run .manual {} ops).heap) (toCanon arm.out r))[pos]? = some (some t) := by
+  have hn : e.2.shape.n ≠ 0 := by
+    rw [hs]; rcases hd with rfl | rfl | rfl | rfl <;> decide
+  exact unwrap_unchecked_safe_gen (s := e.2.view (World.run .manual {} ops).heap) hd hs
+    (reachable_store_inv ops hop e he hn).1 ha hix hr
 
 /-- `ensure_owned_sound` (api/src/term/_simple.rs, the `transmute` of an owned `MownStr` to
 `'static`): whichever branch is taken, the returned string OWNS a buffer that did not exist before
